@@ -844,6 +844,20 @@ def nontrivial(case):
     return d['kind'] == 'prop' and not (d.get('rhs') is None and d['ty'][0] == 'conc')
 
 
+
+def coq_retry(ctx, exprs, imports, prelude):
+    """model evaluation; a coqc process killed by the machine (out of memory under load) is retried"""
+    import time
+    last = None
+    for attempt in range(3):
+        try:
+            return ctx.coq(exprs, imports, prelude=prelude, tag='cases%d' % attempt)
+        except Exception as e:      # noqa
+            last = e
+            time.sleep(10 * (attempt + 1))
+    raise last
+
+
 def run(ctx):
     cases = matrix_cases() + random_cases(ctx)
     ex = exotic_cases(ctx)
@@ -853,7 +867,7 @@ def run(ctx):
     # ---- model side ----
     model = None
     try:
-        model = [renumber(t) for t in ctx.coq([model_expr(c) for c in allc], ['PropWiz'], prelude=PRELUDE)]
+        model = [renumber(t) for t in coq_retry(ctx, [model_expr(c) for c in allc], ['PropWiz'], prelude=PRELUDE)]
     except Exception as e:
         ctx.broken_tie('model evaluation failed: %s' % str(e)[:800])
 
